@@ -37,7 +37,7 @@ func init() {
 }
 
 func init() {
-	props["C13"] = []Stream{{"sweep", genSweep}}
+	props["C13"] = []Stream{{"sweep", genSweep}, {"sweep-wall", genSweepWall}}
 }
 
 func init() {
